@@ -268,7 +268,6 @@ func singularAlts(fd protoreflect.FieldDescriptor, o ValueOpts, withZero bool) [
 	return out
 }
 
-
 func listAlts(fd protoreflect.FieldDescriptor, o ValueOpts) []Alt {
 	var out []Alt
 	if fd.Kind() == protoreflect.MessageKind {
